@@ -59,6 +59,52 @@ pub fn digest_scn<S: Scheme>(c: &Scn, tier: Tier) -> String {
         }
         o => h.update(o.kind().as_bytes()),
     }
+    // combination openings: per point label one equation over its polynomials with several constant
+    // terms and a repeated label (degree-bounded polynomials alone, coefficient one - the admissible shape)
+    {
+        use ark_poly_commit::{LCTerm, LinearCombination};
+        use ark_ff::UniformRand;
+        let mut lcs = Vec::new();
+        let mut qs = std::collections::BTreeSet::new();
+        let mut evals = std::collections::BTreeMap::new();
+        let mut g0 = crate::util::rng(sess.seeds[0] ^ 0xc18);
+        for (k, g) in sess.groups.iter().enumerate() {
+            let free: Vec<usize> = g.polys.iter().cloned().filter(|i| sess.meta[*i].bound.is_none()).collect();
+            let mut terms: Vec<(S::F, LCTerm)> = Vec::new();
+            let mut value = S::F::from(0u64);
+            if free.is_empty() {
+                let i = g.polys[0];
+                terms.push((S::F::from(1u64), LCTerm::PolyLabel(sess.polys[i].label().clone())));
+                value += sess.true_value(i, &g.point);
+            } else {
+                for (n, i) in free.iter().chain(free.first()).enumerate() {
+                    let c = S::F::rand(&mut g0);
+                    terms.push((c, LCTerm::PolyLabel(sess.polys[*i].label().clone())));
+                    value += c * sess.true_value(*i, &g.point);
+                    // constants between the polynomial terms: +a, -b, +c ...
+                    let a = S::F::rand(&mut g0);
+                    let a = if n % 2 == 0 { a } else { -a };
+                    terms.push((a, LCTerm::One));
+                    value += a;
+                }
+                let a = S::F::rand(&mut g0);
+                terms.push((a, LCTerm::One));
+                value += a;
+            }
+            let name = format!("lc{k}");
+            lcs.push(LinearCombination::new(name.clone(), terms));
+            qs.insert((name.clone(), (g.label.clone(), g.point.clone())));
+            evals.insert((name, g.point.clone()), value);
+        }
+        match super::c06::open_comb::<S>(&sess, &lcs, &qs) {
+            Out::Ok(p) => {
+                h.update(ser(&p));
+                let r = super::c06::check_comb::<S>(&sess, &lcs, sess.verifier_comms(), &qs, &evals, &p);
+                h.update([accepted(&r) as u8, matches!(r, Out::Ok(_)) as u8]);
+            }
+            o => h.update(o.kind().as_bytes()),
+        }
+    }
     hex(&h.finalize())
 }
 
